@@ -530,6 +530,23 @@ def run_history(cfg, script=(), max_subset=None, max_bg=None):
     d, ids, callargs, src = build_dag(cfg)
     idx_of = {i: k + 1 for k, i in enumerate(ids)}
     truthy = {k + 1: t for k, t in enumerate(cfg.get("truthy") or [True] * cfg["n"])}
+    rc = cfg.get("reconf")
+    if rc:
+        # priorities / sequentiality reconfigured after the build (dict, JSON or YAML): the documented values change with it
+        import json as _json
+        import tempfile
+        conf = {"nodes": {ids[k]: {"priority": rc["prio"][k], "is_sequential": rc["seq"][k]} for k in range(cfg["n"]) if rc["named"][k]}}
+        if rc["via"] == "dict":
+            d.config_from_dict(conf)
+        else:
+            with tempfile.NamedTemporaryFile("w", suffix="." + rc["via"], delete=False) as f:
+                if rc["via"] == "json":
+                    _json.dump(conf, f)
+                else:
+                    import yaml
+                    yaml.safe_dump(conf, f)
+            (d.config_from_json if rc["via"] == "json" else d.config_from_yaml)(f.name)
+            os.remove(f.name)
     ctl = Controller(idx_of, script, max_subset, max_bg, bad=cfg.get("bad") or (), truthy=truthy)
     CURRENT = ctl
     _verif.sink = ctl
@@ -559,12 +576,25 @@ def run_history(cfg, script=(), max_subset=None, max_bg=None):
     try:
         for op in ops:
             ctl.reset_exec()
-            ctl.log("op", k=op)
+            opname = op if isinstance(op, str) else op[0]
+            target = None
+            if opname == "exec":
+                # an executor restricted by target / exclude / root nodes (a caller error skips the operation)
+                sel = op[1]
+                kw = {k2: [ids[j - 1] for j in sel[k1]] for k1, k2 in (("t", "target_nodes"), ("x", "exclude_nodes"), ("r", "root_nodes")) if sel.get(k1) is not None}
+                try:
+                    target = d.executor(**kw)
+                except ValueError:
+                    ctl.log("op_skipped", k="exec")
+                    continue
+            ctl.log("op", k=opname)
             raised = False
             ctl.in_call = True
             try:
-                if op == "setup":
+                if opname == "setup":
                     asyncio.run(d.setup()) if is_async else d.setup()
+                elif opname == "exec":
+                    asyncio.run(target(*callargs)) if is_async else target(*callargs)
                 else:
                     asyncio.run(d(*callargs)) if is_async else d(*callargs)
                 ctl.in_call = False
